@@ -256,9 +256,23 @@ func (ls *LanceroSource) ConfigureMixFraction(mfo *MixFractionObject) ([]float64
 			return nil, fmt.Errorf("channelIndex %v is even, only odd channels (feedback) allowed", channelIndex)
 		}
 	}
+	// The request is served by the data-production step of the running source, which answers on
+	// currentMix. If the source stops while the request is in flight nobody will ever answer it
+	// (and a restart replaces both channels), so also watch this run's abort signal and the source state.
+	replies, abort := ls.currentMix, ls.abortSelf
 	ls.mixRequests <- mfo
-	current := <-ls.currentMix // retrieve current mix race-free
-	return current, nil
+	for {
+		select {
+		case current := <-replies: // retrieve current mix race-free
+			return current, nil
+		case <-abort:
+			return nil, fmt.Errorf("the source was stopped before the mix request was served")
+		case <-time.After(100 * time.Millisecond):
+			if !ls.Running() {
+				return nil, fmt.Errorf("the source ended before the mix request was served")
+			}
+		}
+	}
 }
 
 // Sample determines key data facts by sampling some initial data.
